@@ -132,6 +132,10 @@ impl Prop for C07 {
                 format!("(hold-for-duration {t} vk0)"),
                 format!("(caps-word {t})"),
                 format!("(one-shot-pause-processing {t})"),
+                // two keys pressed in the same tick: the second most recent key is as old as the most
+                // recent one, which is the one the can-block decision looks at
+                "S-x".to_string(),
+                "C-S-y".to_string(),
             ];
             let a1 = r.pick(&acts).clone();
             let a2 = r.pick(&acts).clone();
